@@ -89,7 +89,28 @@ class StmtMixin(CallMixin):
     def unwrap_awaited(self, v):
         return v
 
+    def abstracted_target(self, tgt):
+        """a local whose *value* the contract declares irrelevant (c.abstract_local): assignments to it are not
+        evaluated, it holds an arbitrary value of its declared type"""
+        ab = getattr(self.c, "abstract_locals_", None)
+        return ab.get(tgt.id) if (ab and isinstance(tgt, ast.Name)) else None
+
+    def wrapping_target(self, tgt):
+        w = getattr(self.c, "wrapping_", None)
+        return bool(w) and ast.unparse(tgt) in w
+
     def st_Assign(self, s, st):
+        if len(s.targets) == 1 and self.wrapping_target(s.targets[0]) and not getattr(self, "wrap_ok", 0):
+            self.wrap_ok = 1
+            try:
+                return self.st_Assign(s, st)
+            finally:
+                self.wrap_ok = 0
+        if len(s.targets) == 1 and self.abstracted_target(s.targets[0]) is not None:
+            nv = self.fresh(self.abstracted_target(s.targets[0]), s.targets[0].id)
+            self.assume_valid(st, nv)
+            st.env[s.targets[0].id] = nv
+            return [Out("fall", st)]
         outs = []
         for s2, v in self.ev(s.value, st):
             for tgt in s.targets:
@@ -107,6 +128,17 @@ class StmtMixin(CallMixin):
         return outs
 
     def st_AugAssign(self, s, st):
+        if self.wrapping_target(s.target) and not getattr(self, "wrap_ok", 0):
+            self.wrap_ok = 1
+            try:
+                return self.st_AugAssign(s, st)
+            finally:
+                self.wrap_ok = 0
+        if self.abstracted_target(s.target) is not None:
+            nv = self.fresh(self.abstracted_target(s.target), s.target.id)
+            self.assume_valid(st, nv)
+            st.env[s.target.id] = nv
+            return [Out("fall", st)]
         outs = []
         load = _as_load(s.target)
         for s2, cur in self.ev(load, st):
@@ -275,7 +307,11 @@ class StmtMixin(CallMixin):
                 raise Unsupported("bare raise outside handler")
             return [Out("raise", st, cur)]
         outs = []
-        for s2, v in self.ev(s.exc, st):
+        exc_expr = s.exc
+        if isinstance(exc_expr, ast.Call) and getattr(self.module, "pyx_dropped", None) is not None:
+            # translated Cython: the message of a raised exception (str.format calls etc.) is dropped, the class kept
+            exc_expr = ast.copy_location(ast.Call(func=exc_expr.func, args=[], keywords=[]), exc_expr)
+        for s2, v in self.ev(exc_expr, st):
             if v.ty != EXC:
                 if isinstance(v.ty, Opt) and v.ty.inner == EXC:
                     v = T.opt_val(v)
